@@ -114,7 +114,8 @@ def generate(rng, tier):
         cases.append("C13 b64d " + hx(s.encode()))
     # value round trips (oracle only: the codec is CPython's)
     for _ in range(n):
-        secret = rng.choice(["s", "secret ž", "x" * 128, b"\x00\xff", b"k" * 77, "🔑"])
+        secret = rng.choice(["s", "secret ž", "x" * 128, b"\x00\xff", b"k" * 77, "🔑", b"\x00", "ž" * 40, b"\x01" * 65, "k" * 64,
+                             bytes(range(128))])
         comp = rng.choice(list(COMP))
         sid = rng.choice(["SESSID", "MYSID", "s"])
         cases.append("C13 rt %s %s %s %s" % (hx(json.dumps(rand_data(rng))), tok_secret(secret), comp, sid))
@@ -305,7 +306,11 @@ def oracle(case):
     sid = t[5]
     sess = PoorSession(secret, compress=comp, sid=sid)
     sess.data = data
-    hdrs = sess.header()
+    try:
+        hdrs = sess.header()
+    except Exception as err:
+        return [Violation("c13-write-raises", case, "emitting the session cookie for a %d-byte dictionary under a %d-%s secret "
+                          "raised %r" % (len(json.dumps(data)), len(secret), type(secret).__name__, err))]
     value = hdrs[0][1].split(";")[0]
     req = fake_request("%s" % value)
     s2 = PoorSession(secret, compress=comp, sid=sid)
@@ -321,6 +326,12 @@ def oracle(case):
     if len(serialised) >= 16:
         other = "other-secret" if secret != "other-secret" else "x"
         probes.append(("foreign", other, raw))
+        if len(secret) == 1:
+            # every other secret of the same length and type (secrets that short differ in little else)
+            for b in range(256):
+                o = bytes([b]) if isinstance(secret, bytes) else chr(b + 0x100 if chr(b) == secret else b)
+                if o != secret:
+                    probes.append(("foreign-1", o, raw))
     for k in sorted({0, 1, 2, 3, len(raw) // 2, len(raw) - 1}):
         if 0 < k < len(raw):
             probes.append(("prefix%d" % k, secret, raw[:k]))
